@@ -9,6 +9,33 @@ from core.ctx import REPO
 from props import _crash_fsfault as F
 
 ID = "C25"
+LEAN_MODULES = ["NiftyVerif.Props.C25"]
+DRIVER = "Driver/C25.lean"
+OBLIGATIONS = ["NiftyVerif.C25." + t for t in (
+    "crash_safe_all", "crash_safe_all_single", "marker_implies_complete", "uninterrupted_all", "natSys_lawful",
+    "asFound_marker_truncated", "asFound_marker_before_history", "asFound_marker_before_minisanity_history",
+    "asFound_latest_in_place", "latest_window_witness")]
+RULE = ("case = (configuration incl. save strategy, kill points of successive runs, then an unkilled resume); ALL single "
+        "kill points of the MODEL's byte-granular operation sequence (every op boundary and every position inside a "
+        "write) plus random double kills are mapped to the real run and executed on the real driver with simulated "
+        "kills; a sample and every distinct failure is re-executed with real process kills (os._exit) and must give "
+        "byte-identical directories; non-trivial = first kill strictly inside the run; distinct by (cfg, kills)")
+TRUSTED_BASE = [
+    "Lean 4.33 kernel; axioms propext/Classical.choice/Quot.sound only (audited every run)",
+    "hand-written model Model/CrashCl.lean of optimize_kl's file protocol, ResidualSampleList.save/load and the resume "
+    "branch, tied by (a) equality of the recorded real op sequence with the model's for the first and every resumed "
+    "run, (b) equality of the per-file status class (absent/empty/partial/complete:i, marker value) after every kill "
+    "and after the resumed run, (c) equality of the outcome (finished / kind of exception)",
+    "Lawful: pickle round trip of the sample/mean files, histories and random state; str/int round trip of the marker; "
+    "an iteration is a deterministic function of (iteration index, sample list, mean) once the random state is restored "
+    "— observed by the oracle (bitwise equal samples and mean), not proved",
+    "fault injector harness/props/_crash_fsfault.py (see C24)",
+]
+ASSUMPTIONS = [
+    "a crash is a process kill; power loss is outside the model", "os.replace is atomic",
+    "single task (comm=None); the restarted call gets the same arguments",
+    "n_samples >= 1 (MAP runs use SampleList.save without a mean file: same _save_to_disk, not modelled)",
+]
 VOLATILE = ("minisanity.txt", "counting_report.txt")      # contain datetime.now(): never compared byte-wise
 
 
@@ -292,3 +319,323 @@ def _judge(cfg, sc, refres):
                 f"{bool(r) and r['samples'] == refres['samples']}): silently wrong",
                 dict(driver="cl.optimize_kl", strategy=strat, phase="result", error="different-result"))
     return None
+
+
+def _in_latest_window(cfg, sc):
+    """known-finding window: strategy latest, a kill after an os.replace (or in-place open) onto pickle/latest.<k|mean>.pickle
+    of an iteration whose marker has not been moved into place yet, while an older marker exists"""
+    if cfg.get("strategy", "latest") != "latest":
+        return False
+    for st in sc["stages"]:
+        if st["status"] != "killed":
+            continue
+        co = st["coarse"]
+        last_marker = max([i for i, c in enumerate(co) if c.endswith("-> last_finished_iteration")
+                           or c == "close last_finished_iteration"] + [-1])
+        ahead = any(("-> pickle/latest." in c and c.endswith(".pickle")) for c in co[last_marker + 1:])
+        has_marker = st.get("snap", {}).get("last_finished_iteration") is not None
+        if ahead and has_marker:
+            return True
+    return False
+
+
+def _sig(cfg, sc, j):
+    what, sig = j
+    if sig.get("error") == "different-result" and _in_latest_window(cfg, sc):
+        sig = dict(sig, window="latest-files-ahead-of-marker")
+    return what, sig
+
+
+def oracle(case):
+    """case = {cfg, kills:[{at, when, frac?}…]} in real op coordinates; property on the real code only, REAL process kills"""
+    if "kills" not in case:
+        return None
+    cfg = case["cfg"]
+    key = json.dumps(cfg, sort_keys=True)
+    try:
+        if key not in _SESS:
+            _SESS[key] = _run_session("o" + hashlib.sha1(key.encode()).hexdigest()[:8], cfg, [])
+        ref = _SESS[key]["ref"]
+        sc = _scenario_real("o" + hashlib.sha1(json.dumps(case, sort_keys=True).encode()).hexdigest()[:8], cfg, case["kills"])
+        j = _judge(cfg, sc, ref["res"])
+        return _sig(cfg, sc, j) if j else None
+    except Infra:
+        return None
+
+
+def shrink(case):
+    ks = case["kills"]
+    if len(ks) > 1:
+        for j in range(len(ks)):
+            yield dict(case, kills=[ks[j]])
+    for j, k in enumerate(ks):
+        if k.get("when") == "partial":
+            yield dict(case, kills=ks[:j] + [dict(at=k["at"], when="before")] + ks[j + 1:])
+
+
+def _real_kill(pos, ops):
+    from props.c24 import _real_kill as rk
+    return rk(pos, ops)
+
+
+def _configs(ctx):
+    seed = ctx.rng.randrange(1000)
+    cfgs = [dict(n=3, seed=seed, n_samples=1, strategy="all", r0=False),
+            dict(n=3, seed=seed, n_samples=1, strategy="latest", r0=False)]
+    if not ctx.quick:
+        cfgs += [dict(n=3, seed=seed + 1, n_samples=2, strategy="all", r0=True, geovi=True),
+                 dict(n=4, seed=seed + 2, n_samples=1, strategy="latest", r0=True),
+                 dict(n=2, seed=seed + 3, n_samples=2, strategy="latest", r0=False, geovi=True)]
+    return cfgs
+
+
+def _corpus(ctx):
+    from core.ctx import VERIF
+    d = os.path.join(VERIF, "corpus", ID)
+    cases = []
+    for fn in sorted(os.listdir(d)) if os.path.isdir(d) else []:
+        if fn.endswith(".json"):
+            rec = json.load(open(os.path.join(d, fn)))
+            cases += rec.get("cases", [rec] if "kills" in rec else [])
+    for case, r in _pool().map(lambda c: (c, oracle(c)), cases):
+        ctx.case(dict(corpus=True, **case))
+        ctx.stat("corpus")
+        if r:
+            ctx.counterexample(case, *r)
+
+
+def run(ctx):
+    _corpus(ctx)
+    for cfg in _configs(ctx):
+        _run_cfg(ctx, cfg)
+    if not ctx.quick:
+        _run_opaque(ctx)
+
+
+def _session_chunks(ctx, cfg, scenarios, nsess, extra=None):
+    chunks = [scenarios[i::nsess] for i in range(nsess)]
+    try:
+        return _pool().map(lambda a: _run_session(f"{cfg['strategy']}{cfg['seed']}_{a[0]}", dict(cfg, **(extra or {})), a[1]),
+                           list(enumerate(chunks)))
+    except Infra as e:
+        from core import leanrun
+        raise leanrun.InfraError(str(e))
+
+
+def _run_cfg(ctx, cfg):
+    n, r0, strat = cfg["n"], cfg["r0"], cfg["strategy"]
+    nsamp = 2 * cfg["n_samples"]
+    protos = ("repaired", "asFound")
+    base = dict(strategy=strat, total=n, nsamp=nsamp)
+    mo = dict(zip(protos, ctx.model(DRIVER, [dict(op="ops", proto=p, resume=r0, **base) for p in protos])))
+    # phase A: reference run (which protocol does the code follow?)
+    try:
+        o0 = _run_session(f"{strat}{cfg['seed']}_ref", cfg, [])
+    except Infra as e:
+        from core import leanrun
+        raise leanrun.InfraError(str(e))
+    ref = o0["ref"]
+    _SESS[json.dumps(cfg, sort_keys=True)] = o0
+    case0 = dict(op="ops", cfg=cfg)
+    if ref["status"] != "done":
+        ctx.counterexample(case0, f"the uninterrupted run raised {ref['exc']}",
+                           dict(driver="cl.optimize_kl", phase="uninterrupted", error=(ref["exc"] or {}).get("error")))
+        return
+    real_coarse = F.coarse(ref["ops"], drop_noop_mkdir=False)
+    proto = next((p for p in protos if mo[p]["coarse"] == real_coarse), None)
+    ctx.traces_validated += 1
+    ctx.compare(case0, dict(coarse=real_coarse), dict(coarse=mo["repaired"]["coarse"]),
+                note=f"[{strat}] op sequence of the real uninterrupted run vs model (repaired protocol)"
+                     + (" — the real sequence equals the model of the AS-FOUND protocol" if proto == "asFound" else ""))
+    ctx.stat(f"{strat}:real-protocol={proto}")
+    if ref["res"]["iterations"] != n or ref["res"]["n_samples"] != nsamp:
+        ctx.disagree(case0, ref["res"], dict(iterations=n, n_samples=nsamp), "uninterrupted run: iterations / samples")
+    if proto is None:
+        kills = [[dict(at=k, when="before")] for k in range(len(ref["ops"]) + 1)]
+        kills += [[dict(at=k, when="partial", frac=[1, 2])] for k, ev in enumerate(ref["ops"]) if ev["op"] == "write"]
+        outs = _session_chunks(ctx, cfg, [dict(sid=i, kills=k) for i, k in enumerate(kills)], ctx.n(3, 6))
+        _report_failures(ctx, cfg, {k: v for o in outs for k, v in o["scen"].items()}, ref, set())
+        return
+    nfine = mo[proto]["fine"]
+    rng = __import__("random").Random(ctx.rng.randrange(10 ** 9))
+    scen = [[k] for k in range(nfine + 1)]
+    for _ in range(ctx.n(10, 60)):
+        scen.append([rng.randrange(1, nfine), rng.randrange(0, 40)])
+    sims = ctx.model(DRIVER, [dict(op="sim", proto=proto, r0=r0, kills=ks, **base) for ks in scen])
+    scenarios = []
+    for sid, (ks, sim) in enumerate(zip(scen, sims)):
+        poss = [st["pos"] for st in sim["stages"]]
+        kills = [_real_kill(poss[0], ref["ops"])] + [
+            (dict(at=10 ** 6, when="before") if p == "end" else
+             dict(at=p["coarse"], when="before") if p["off"] == 0 else
+             dict(at=p["coarse"], when="partial", frac=[p["off"], p["len"]])) for p in poss[1:]]
+        scenarios.append(dict(sid=sid, kills=kills))
+    outs = _session_chunks(ctx, cfg, scenarios, ctx.n(4, 6))
+    if any(o["ref"]["res"] != ref["res"] for o in outs):
+        ctx.disagree(case0, [o["ref"]["res"] for o in outs], ref["res"], "the uninterrupted run is not deterministic")
+        return
+    allsc = {k: v for o in outs for k, v in o["scen"].items()}
+    window_model = 0
+    for sid, (ks, sim) in enumerate(zip(scen, sims)):
+        sc = allsc.get(str(sid))
+        if sc is None:
+            continue
+        case = dict(cfg=cfg, kills_model=ks, kills=sc["kills"])
+        for st in sim["stages"]:
+            pos = st.get("pos")
+            ctx.stat(f"{strat}:kill:" + ("end" if pos == "end" else ("mid-write" if pos["off"] else "op-boundary")))
+        ctx.stat(f"{strat}:stages={len(ks)}")
+        fin, mfin = sc["final"], sim["final"]
+        # the model says "wrong state" (>= 1000) or raises where files of different iterations are mixed; the real result
+        # then depends on whether the mixed part is used (only the mean is, without `transitions`): compare the
+        # directories after the kills, not the final outcome
+        m_ok = mfin["outcome"] == f"ok:{n}"
+        if not m_ok:
+            window_model += 1
+            ctx.stat(f"{strat}:model-predicts-failure:{mfin['outcome'] if mfin['outcome'].startswith('error') else 'wrong-state'}")
+        def out_real(st):
+            return ("killed" if st["status"] == "killed" else
+                    "error" if st["status"] == "error" else
+                    "ok" if st.get("res") and st["res"]["mean"] == ref["res"]["mean"] and st["res"]["samples"] == ref["res"]["samples"]
+                    else "wrong")
+        def out_model(o):
+            return "killed" if o == "killed" else "error" if o.startswith("error") else "ok" if o == f"ok:{n}" else "wrong"
+        impl = dict(stages=[dict(files=st["files"], coarse=st["coarse"], outcome=out_real(st)) for st in sc["stages"]])
+        modl = dict(stages=[dict(files=st["files"], coarse=st["coarse"], outcome=out_model(st["outcome"]))
+                            for st in sim["stages"]][:len(sc["stages"])])
+        strict = m_ok and all(out_model(st["outcome"]) in ("killed", "ok") for st in sim["stages"])
+        if strict or proto == "asFound":
+            impl["final"] = dict(outcome=out_real(fin), coarse=fin["coarse"], files=fin["files"])
+            modl["final"] = dict(outcome=out_model(mfin["outcome"]), coarse=mfin["coarse"], files=mfin["files"])
+        if not strict:
+            # inside a failure window only the first killed directory is exact in the model
+            impl["stages"], modl["stages"] = impl["stages"][:1], modl["stages"][:1]
+            if proto == "asFound" and out_model(mfin["outcome"]) == "wrong":
+                impl.pop("final"), modl.pop("final")
+        ctx.compare(case, impl, modl, note=f"[{strat}] directory after each kill / outcome / resumed run: real vs model",
+                    nontrivial=0 < ks[0] < nfine)
+        ctx.traces_validated += len(sc["stages"]) + 1
+        reads_ok = {"last_finished_iteration", "pickle/nifty_random_state"}
+        bad = [r for r in fin.get("reads", []) if r not in reads_ok and not r.startswith(("pickle/iteration_", "pickle/latest.",
+               "pickle/energy_history_", "pickle/minisanity_history_"))]
+        if bad:
+            ctx.disagree(case, dict(reads=bad), dict(reads=[]), "the resumed run reads files outside the model's read-set")
+    ctx.extra[f"{strat}:crash_points_model"] = nfine + 1
+    ctx.extra[f"{strat}:model_failure_predictions"] = window_model
+    picked = _real_crosscheck(ctx, cfg, allsc, ref)
+    _report_failures(ctx, cfg, allsc, ref, picked)
+    ctx.extra["exhaustive"] = True
+
+
+def _real_crosscheck(ctx, cfg, allsc, ref):
+    """simulated kill == real kill (os._exit in a process of its own) on a sample; every distinct failure first.
+    -> set of scenario ids whose simulated record was confirmed byte for byte"""
+    failing, seen = [], set()
+    for sid, sc in allsc.items():
+        try:
+            j = _judge(cfg, sc, ref["res"])
+        except Infra:
+            continue
+        if j:
+            key = json.dumps(_sig(cfg, sc, j)[1], sort_keys=True)
+            if key not in seen and len(failing) < 4:
+                seen.add(key)
+                failing.append(sid)
+    cand = [sid for sid in allsc if sid not in failing]
+    ctx.rng.shuffle(cand)
+    mid = [sid for sid in cand if any(k.get("when") == "partial" for k in allsc[sid]["kills"])]
+    pick = failing + mid[:ctx.n(1, 6)] + [sid for sid in cand if sid not in mid][:ctx.n(2, 8)]
+    try:
+        reals = _pool().map(lambda sid: (sid, _scenario_real(f"{cfg['strategy']}{cfg['seed']}_{sid}", cfg, allsc[sid]["kills"])), pick)
+    except Infra as e:
+        ctx.notes.append(f"real-kill cross-check skipped: {e}")
+        return set()
+    confirmed = set()
+    for sid, rs in reals:
+        sc = allsc[sid]
+        if any(str(st["status"]).startswith("rc=") for st in rs["stages"] + [rs["final"]]):
+            ctx.stat("real-kill:infra-skipped")
+            continue
+        def view(x):
+            return dict(stages=[dict(status=st["status"], snap=st["snap"], exc=(st["exc"] or {}).get("error")) for st in x["stages"]],
+                        final=dict(status=x["final"]["status"], snap=x["final"]["snap"], res=x["final"]["res"],
+                                   exc=(x["final"]["exc"] or {}).get("error")))
+        ctx.stat("real-kill:checked")
+        if ctx.compare(dict(cfg=cfg, kills=sc["kills"], check="simulated-vs-real-kill"), view(rs), view(sc),
+                       note="directory snapshots / outcome: real kill (os._exit) vs simulated kill"):
+            confirmed.add(sid)
+            ctx.traces_validated += 1
+    return confirmed
+
+
+def _report_failures(ctx, cfg, allsc, ref, confirmed):
+    """a failure seen under a simulated kill is reported when the same scenario (or one with the same signature) was
+    confirmed with real kills"""
+    conf_sigs, fails = set(), []
+    for sid, sc in allsc.items():
+        try:
+            j = _judge(cfg, sc, ref["res"])
+        except Infra:
+            continue
+        if j:
+            what, sig = _sig(cfg, sc, j)
+            fails.append((sid, sc, what, sig))
+            if sid in confirmed:
+                conf_sigs.add(json.dumps(sig, sort_keys=True))
+    ctx.stat(f"{cfg['strategy']}:failing-scenarios(simulated)", len(fails))
+    done = set()
+    for sid, sc, what, sig in fails:
+        key = json.dumps(sig, sort_keys=True)
+        if key in conf_sigs and (sid in confirmed) and key not in done:
+            done.add(key)
+            ctx.counterexample(dict(cfg=cfg, kills=sc["kills"]), what, sig)
+    for sid, sc, what, sig in fails:   # signatures never confirmed by a real kill: replay them for real now
+        key = json.dumps(sig, sort_keys=True)
+        if key not in done:
+            done.add(key)
+            r = oracle(dict(cfg=cfg, kills=sc["kills"]))
+            if r:
+                ctx.counterexample(dict(cfg=cfg, kills=sc["kills"]), *r)
+
+
+def _run_opaque(ctx):
+    """configurations the model does not cover (plots, exported operator outputs as HDF5, transitions): oracle only,
+    simulated kills at every real op boundary"""
+    seed = ctx.rng.randrange(1000)
+    for cfg in (dict(n=2, seed=seed, n_samples=1, strategy="all", r0=False, plots=True, export=True),):
+        try:
+            o0 = _run_session(f"opq{seed}", cfg, [])
+            ref = o0["ref"]
+            if ref["status"] != "done":
+                continue
+            kills = [[dict(at=k, when="before")] for k in range(0, len(ref["ops"]) + 1)]
+            outs = _session_chunks(ctx, cfg, [dict(sid=i, kills=k) for i, k in enumerate(kills)], 6)
+        except Infra as e:
+            ctx.notes.append(f"opaque-output configuration skipped: {e}")
+            continue
+        allsc = {k: v for o in outs for k, v in o["scen"].items()}
+        for sid, sc in allsc.items():
+            ctx.case(dict(cfg=cfg, kills=sc["kills"]))
+            ctx.stat("opaque-config:kill")
+        _report_failures(ctx, cfg, allsc, ref, set())
+
+
+def search(ctx):
+    """targeted: the witnesses of Props/C25.lean — marker truncated, marker before histories, latest overwritten in place"""
+    for strat in ("all", "latest"):
+        cfg = dict(n=3, seed=0, n_samples=1, strategy=strat, r0=False)
+        try:
+            o = _run_session("search" + strat, cfg, [])
+        except Infra:
+            return
+        _SESS[json.dumps(cfg, sort_keys=True)] = o
+        ops = o["ref"]["ops"]
+        hits = [k for k, ev in enumerate(ops) if ev["op"] in ("write", "openw", "replace") and (
+            "last_finished_iteration" in ev["path"] or "energy_history" in ev["path"] or "minisanity_history" in ev["path"]
+            or "latest." in ev["path"])]
+        for k in hits[len(hits) // 3:]:
+            case = dict(cfg=cfg, kills=[dict(at=k, when="before")])
+            r = oracle(case)
+            if r:
+                ctx.counterexample(case, *r)
+                return
